@@ -781,6 +781,7 @@ example : NetRun.steps 100 ⟨Net.init, []⟩ NetEx3.hist = some (NetEx3.st 10) 
 --   `new_row` extends every solution - but is not restated here.)
 -- * `check(lits)`: inside its loop a literal may already be assigned when it is assumed; the decision is then
 --   not on the trail at its level, which the `DecOK` component of the invariant (needed for `next`) excludes.
---   It needs C07's bounded `DecOK m`; not done.
+--   DONE SINCE, in `Properties/C07NetCheck.lean` (`C07NC_*`, with `DecOK` bounded by the level of the call); what is
+--   still open there: a negative answer of `check` implies T-unsatisfiability together with the assumptions.
 
 end Oratio
